@@ -650,6 +650,8 @@ class Interp:
                         l_, r_ = nd.fields["left"].value, nd.fields["right"].value
                         if self.presence(l_) == "N" and self.presence(r_) == "N":
                             opts_ = ["S"]   # bounded sub-tree: no value-less leaves below the start node
+                if cell is not None and cell.watch and cell.watch[0] == "node" and cell.watch[3] == "value" and cell.watch[2].startswith("pop("):
+                    opts_ = ["N"]       # free-list axiom (established by C04 R04.3 at every free.push): a recycled slot holds no value
                 st = self.choose("opt:" + name, opts_)
                 if st == "N":
                     return StructV(OPTION, "None", {})
@@ -1251,6 +1253,10 @@ class Interp:
             ax = self.index_axiom(l, r)
             if ax is not None:
                 return BoolV(ax if op == "Eq" else not ax)
+        if op in ("Lt", "Le", "Gt", "Ge"):
+            ax = self.len_axiom(op, l, r)
+            if ax is not None:
+                return BoolV(ax)
         # prefix-derived scalars: prefix_len(a) == prefix_len(b), mask(a) < mask(b) ...
         pr = self.hooks.get("binop")
         if pr is not None:
@@ -1305,6 +1311,30 @@ class Interp:
                 return False
             if nl.startswith(nr + ".") or nr.startswith(nl + "."):
                 return False
+        return None
+
+    def len_axiom(self, op, l, r):
+        """`slot index  <op>  arena length`: a named slot of an arena (a node the path indexed, a child, a slot taken from the
+        free list, the root) lies below the arena's length — indices held in links, stacks, the free list and views stay valid
+        because the arena only shrinks in clear(), together with everything that holds indices (C16 R16.3 / C20 R20.4)."""
+        def is_len(v):
+            return isinstance(v, SymV) and re.match(r"^len\((.*)\)#\d+$", v.name)
+
+        def is_slot(v, arena):
+            if isinstance(v, IntV):
+                return v.n == 0
+            k, nm = self._slot_role(v)
+            if k == "child" or (k == "fresh" and nm.startswith("pop(")):
+                return True
+            if isinstance(v, (SymV, UnkV)):
+                ar = self.arenas.get(arena)
+                return ar is not None and v.name.lstrip("?") in ar.nodes
+            return False
+        ml, mr = is_len(l), is_len(r)
+        if mr and not ml and is_slot(l, mr.group(1)):          # slot <op> len
+            return {"Lt": True, "Le": True, "Gt": False, "Ge": False}[op]
+        if ml and not mr and is_slot(r, ml.group(1)):          # len <op> slot
+            return {"Lt": False, "Le": False, "Gt": True, "Ge": True}[op]
         return None
 
     def prefix_cmp(self, op, l, r):
